@@ -24,6 +24,7 @@ type HarnessSpec struct {
 	Name      string
 	Quick     map[string]int
 	Thorough  map[string]int
+	CfgBase   int // first configuration index
 	NCfgQ     int // number of configurations, quick (0 = 1)
 	NCfgT     int
 	SampleQ   int // if >0: sample this many configurations (seeded) instead of all
@@ -258,7 +259,7 @@ func cmdCheck(args []string) int {
 			for kk, v := range params {
 				p[kk] = v
 			}
-			jobs = append(jobs, Job{Pkg: h.Pkg, Harness: h.Name, Cfg: c, Params: p})
+			jobs = append(jobs, Job{Pkg: h.Pkg, Harness: h.Name, Cfg: h.CfgBase + c, Params: p})
 		}
 	}
 	timeout := 10000
